@@ -308,7 +308,7 @@ def truncate(val: str, num: Any = 50, end: str = "...") -> str:
 
     try:
         num = to_int(num)
-    except ValueError as err:
+    except (ValueError, OverflowError) as err:
         raise FilterArgumentError(
             f"truncate expected an integer, found {type(num).__name__}", token=None
         ) from err
@@ -331,7 +331,7 @@ def truncatewords(val: str, num: Any = 15, end: str = "...") -> str:
 
     try:
         num = to_int(num)
-    except ValueError as err:
+    except (ValueError, OverflowError) as err:
         raise FilterArgumentError(
             f"truncate expected an integer, found {type(num).__name__}", token=None
         ) from err
@@ -385,7 +385,7 @@ def base64_decode(val: str) -> str:
     """
     try:
         return base64.b64decode(val).decode()
-    except binascii.Error as err:
+    except (binascii.Error, UnicodeDecodeError) as err:
         raise FilterError("invalid base64-encoded string", token=None) from err
 
 
@@ -403,7 +403,7 @@ def base64_url_safe_decode(val: str) -> str:
     """
     try:
         return base64.urlsafe_b64decode(val).decode()
-    except binascii.Error as err:
+    except (binascii.Error, UnicodeDecodeError) as err:
         raise FilterError("invalid base64-encoded string", token=None) from err
 
 
